@@ -1,6 +1,7 @@
 package main
 
 import (
+	"crypto/sha1"
 	"runtime/debug"
 	"os"
 	"regexp"
@@ -24,6 +25,7 @@ type SpecEnv struct {
 	allocOld string
 	lentry   *State
 	oldVars  map[string]Term // entry values of mutable parameters (used inside old())
+	insideOpaque map[string]bool // opaque defines whose body is being evaluated
 }
 
 func (e *SpecEnv) with(vars map[string]Term) *SpecEnv {
@@ -888,7 +890,56 @@ func (e *SpecEnv) expandDefine(d *Define, args []Term) Term {
 	if i != len(args) {
 		vc.specFail(d.Body, "%s: wrong number of arguments (%d, want %d)", d.Name, len(args), i)
 	}
-	n := &SpecEnv{vc: vc, st: e.st, old: e.old, vars: vars, pkg: dpkg, depth: e.depth + 1, allocOld: e.allocOld}
+	if d.Opaque && !e.insideOpaque[d.Name] {
+		// opaque define: the body is evaluated once over bound parameters in the current state; the application is
+		// an uninterpreted symbol (named after the resulting formula, hence after every heap version it reads) with
+		// the definitional axiom sym(params) == body. Instances are then matched as atoms (witnesses of existentials,
+		// alpha-equivalent copies) and unfolded by the axiom when the content is needed.
+		var ps []Term
+		var decl, names, sorts []string
+		pv := map[string]Term{}
+		k := 0
+		for _, f := range d.Params {
+			t, g := vc.resolveType(f.Type, dpkg)
+			if g != nil {
+				vc.specFail(d.Body, "odefine %s: ghost-typed parameters are not supported", d.Name)
+			}
+			for _, nm := range f.Names {
+				vc.bvN++
+				bn := fmt.Sprintf("%s!q%d", sanitize(nm.Name), vc.bvN)
+				bt := vc.mk(bn, t)
+				pv[nm.Name] = bt
+				ps = append(ps, bt)
+				decl = append(decl, "("+bn+" "+bt.Sort+")")
+				names = append(names, bn)
+				sorts = append(sorts, bt.Sort)
+				k++
+			}
+		}
+		io := map[string]bool{d.Name: true}
+		for x := range e.insideOpaque {
+			io[x] = true
+		}
+		be := &SpecEnv{vc: vc, st: e.st, old: e.old, vars: pv, pkg: dpkg, depth: e.depth + 1, allocOld: e.allocOld, insideOpaque: io}
+		body := be.eval(d.Body)
+		canon := canonBound("(forall (" + strings.Join(decl, " ") + ") " + body.S + ")")
+		sum := sha1.Sum([]byte(canon))
+		sym := fmt.Sprintf("od$%s$%x", sanitize(d.Name), sum[:6])
+		vc.u.declFun(sym, "("+strings.Join(sorts, " ")+") "+body.Sort)
+		app := "(" + sym + " " + strings.Join(names, " ") + ")"
+		if !vc.odSeen[sym] {
+			vc.odSeen[sym] = true
+			vc.addBase("(forall (" + strings.Join(decl, " ") + ") (! (= " + app + " " + body.S + ") :pattern (" + app + ")))")
+		}
+		var as []string
+		for j, a := range args {
+			as = append(as, vc.coerce(a, ps[j].T).S)
+		}
+		r := body
+		r.S = "(" + sym + " " + strings.Join(as, " ") + ")"
+		return r
+	}
+	n := &SpecEnv{vc: vc, st: e.st, old: e.old, vars: vars, pkg: dpkg, depth: e.depth + 1, allocOld: e.allocOld, insideOpaque: e.insideOpaque}
 	r := n.eval(d.Body)
 	if d.Ret != nil {
 		if t, g := vc.resolveType(d.Ret, dpkg); g == nil && t != nil {
